@@ -10,6 +10,7 @@ import (
 	"github.com/rs/zerolog"
 	"pgregory.net/rapid"
 	"verif/harness/ev"
+	"verif/harness/jsonref"
 	"verif/harness/lp"
 )
 
@@ -112,9 +113,30 @@ func check(t interface{ Fatalf(string, ...interface{}) }, name string, p *lp.Pro
 	nt, labels := nontrivial(p)
 	rec.Case(b, nt, labels...)
 	rec.Sample(json.RawMessage(b))
-	if is := lp.Check(p, "fullctx"); len(is) > 0 {
+	res := lp.Run(p)
+	if is := lp.CheckResult(p, res, "fullctx"); len(is) > 0 {
 		if is[0].Kind == "invalid" {
-			rec.Excluded("unparseable-line (C01's domain)")
+			// An unparseable line is C01's finding *unless* it comes from interference between
+			// loggers: metamorphic reference = the same event through its own derivation path
+			// alone (siblings and other events removed). A bad line that no isolated run
+			// reproduces byte for byte is an independence violation.
+			alone := map[string]bool{}
+			for j := range p.Events {
+				r := lp.Run(lp.Isolate(p, j))
+				for _, d := range r.Dests {
+					for _, w := range d {
+						alone[string(w.Data)] = true
+					}
+				}
+			}
+			for _, d := range res.Dests {
+				for _, w := range d {
+					if _, err := jsonref.ValidateLine(w.Data); err != nil && !alone[string(w.Data)] {
+						fail(t, name, p, fmt.Sprintf("a derived logger emitted %q, which the same event through its own derivation path alone does not emit (interference between loggers)", w.Data))
+					}
+				}
+			}
+			rec.Excluded("unparseable-line reproduced in isolation (C01's domain)")
 			return
 		}
 		fail(t, name, p, is[0].String())
